@@ -35,6 +35,7 @@ package limits
 //@ func (*Group).TakeMsg
 //@   prop C11
 //@   nopanic
+//@   splitreturns
 //@   requires groupOK(g) && ctx != nil
 //@   modifies limiters.L.held, limiters.BucketSet.holds
 //@   noframe
